@@ -163,6 +163,7 @@ type TxWorld struct {
 	Txs     map[bitcoin.Hash32]*wire.MsgTx
 	n       int
 	FetchDelay func()
+	FetchFail  func() bool // the output service fails this request (an outage)
 	NoFetchTx  bool // the external tx service knows nothing (GetTx must be answered from the node's own store)
 }
 
@@ -234,6 +235,9 @@ func (w *TxWorld) OutputOf(op wire.OutPoint) *wire.TxOut {
 func (w *TxWorld) GetOutputs(ctx context.Context, ops []wire.OutPoint) ([]bitcoin.UTXO, error) {
 	if w.FetchDelay != nil {
 		w.FetchDelay()
+	}
+	if w.FetchFail != nil && w.FetchFail() {
+		return nil, fmt.Errorf("output service unavailable")
 	}
 	out := make([]bitcoin.UTXO, 0, len(ops))
 	for _, op := range ops {
